@@ -159,6 +159,16 @@ def generate(seed, tier="quick"):
                                                   f"CONFIG = external({urng.choice(['settings', 'data/cfg.json', 'e1.json', 'x*y'])!r})"])
         kinds.append("own-function-named-external")
     leftover = driver == "plugin" and sub(seed, "leftover").random() < 0.12  # see execute
+    srng = sub(seed, "sometimes-code")
+    if srng.random() < 0.1:
+        # values of ONE type whose repr is Python code for some instances and not for others (the parsable one is met first)
+        f = prog["files"][0]
+        f["sites"]["sc1"] = {"op": "eq", "place": "direct", "arg": None, "prev": None, "trouble": "repr-sometimes-code"}
+        f["sites"]["sc2"] = {"op": srng.choice(["eq", "in"]), "place": "direct", "arg": None, "prev": None, "trouble": "repr-sometimes-code"}
+        t = {"name": "test_00_sometimes_code", "events": [{"t": "cmp", "eid": "esc1", "site": "sc1", "vals": [["raw", "NoCodeSometimes(3)"]], "style": "rec"},
+                                                         {"t": "cmp", "eid": "esc2", "site": "sc2", "vals": [["raw", "[NoCodeSometimes(0), 1]"]], "style": "rec"}]}
+        f["tests"].insert(0, t)
+        kinds.append("repr-sometimes-code")
     if sub(seed, "bom").random() < 0.06:
         prog["files"][0]["header"]["bom"] = True  # the file starts with a UTF-8 byte order mark
         kinds.append("byte-order-mark")
